@@ -188,6 +188,13 @@ def conv_features(sched, conc, conv):
     mine = [p for p in sched["wire"] if p["c"] == conv]
     f["dup"] = any(p["dup"] for p in mine)
     f["swap"] = any(p["o"] != i for i, p in enumerate([p for p in mine if not p["dup"]]))
+    # the 4-tuple of this conversation is used by two conversations one after the other: how long was it silent in between?
+    alias = conc.get("alias") or []
+    other = alias[conv - 1] if conv - 1 < len(alias) and alias[conv - 1] else next((i + 1 for i, a in enumerate(alias) if a == conv), 0)
+    f["reuse"] = None
+    if other:
+        a, b = (other, conv) if alias[conv - 1] else (conv, other)
+        f["reuse"] = min(p["at"] for p in sched["wire"] if p["c"] == b) - max(p["at"] for p in sched["wire"] if p["c"] == a)
     return f
 
 
@@ -236,7 +243,8 @@ def compact_replay(head, row, fail):
             "row": {k: row[k] for k in ("n", "files", "restart", "imported", "vis", "add", "upd", "rst", "used", "next",
                                         "snaps", "snapUsed", "err") if k in row},
             "how": "write the schedule as one line to a file and run harness/wire TestVerifWire with VERIF_IN/VERIF_OUT "
-                   "(VERIF_SEED as recorded), then validate the trace with spec/WireTrace.tla or spec/ImportTrace.tla"}
+                   "(VERIF_SEED as recorded; VERIF_WIRE_AS_RECORDED=1 when the concretisation says overlap: the schedule carries "
+                   "the capture file every packet was written to), then validate the trace with spec/WireTrace.tla or spec/ImportTrace.tla"}
 
 
 def report_c05(ctx, rows, fails):
@@ -250,6 +258,8 @@ def report_c05(ctx, rows, fails):
             key = "C05.Visible:tcp:snapshot-after-close"
         elif ft["wrap"] and (ft["dup"] or ft["swap"]) and f["fail"] in ("payload-c", "payload-s", "runs"):
             key = "C05.Visible:tcp:seqwrap"
+        elif ft.get("reuse") is not None and ft["reuse"] < 300000:
+            key = "C05.Visible:tcp:tuple-reuse"
         else:
             key = "C05.%s:%s:%s%s" % (f["fail"], ft["proto"], pert_name(ft), ":bulk" if ft["bulk"] else "")
         what = "schedule %s (%s) batch %s conversation %s: %s: visible %s, expected %s" % (
